@@ -183,10 +183,10 @@ class Case:
         self.reject_re = reject_re
 
     def source_alone(self):
-        return render_batch([self], getattr(self, "prelude", PRELUDE))[0]
+        return render_batch([self], getattr(self, "prelude", PRELUDE), suffix=getattr(self, "suffix", ""))[0]
 
 
-def render_batch(cases, prelude=PRELUDE, extra_top=""):
+def render_batch(cases, prelude=PRELUDE, extra_top="", suffix=""):
     """-> (source text, [(first_line, last_line)] per case)"""
     lines = prelude.rstrip("\n").split("\n")
     if extra_top:
@@ -206,6 +206,8 @@ def render_batch(cases, prelude=PRELUDE, extra_top=""):
     lines.append("    mark(-1);")
     lines.append("    0")
     lines.append("}")
+    if suffix:
+        lines += suffix.rstrip("\n").split("\n")
     return "\n".join(lines) + "\n", ranges
 
 
@@ -250,6 +252,8 @@ class Runner:
         self.mismatches = []
         self.outcomes = set()
         self.samples = []
+        self.extra_files = {}
+        self.suffix = ""
 
     def _jobdir(self):
         self.jobs += 1
@@ -257,8 +261,10 @@ class Runner:
 
     def _check_batch(self, cases, jobdir):
         """-> (list of Mismatch candidates, list of cases that were not observed)"""
-        src, ranges = render_batch(cases, self.prelude)
-        res = run_capy(jobdir, {"main.capy": src}, self.mod)
+        src, ranges = render_batch(cases, self.prelude, suffix=self.suffix)
+        files = {"main.capy": src}
+        files.update(self.extra_files)
+        res = run_capy(jobdir, files, self.mod)
         return self._judge(cases, ranges, res, src)
 
     def _judge(self, cases, ranges, res, src):
@@ -348,6 +354,10 @@ class Runner:
         cases = list(cases)
         for c in cases:
             c.prelude = self.prelude
+            if self.extra_files:
+                c.extra_files = self.extra_files
+            if self.suffix:
+                c.suffix = self.suffix
         self.cases_run += len(cases)
         accept = [c for c in cases if c.accept]
         reject = [c for c in cases if not c.accept]
@@ -461,7 +471,8 @@ def finish(prop, tier, seed, started, coverage, mismatches, explains=None, assum
         path = os.path.join(replay_dir, h + ".json")
         with open(path, "w") as f:
             json.dump({"property": prop, "engine": "progmc", "case": m.case.key, "kind": m.kind,
-                       "files": m.case.meta.get("files") or {"main.capy": m.case.meta.get("standalone") or m.case.source_alone()},
+                       "files": m.case.meta.get("files") or dict({"main.capy": m.case.meta.get("standalone") or m.case.source_alone()},
+                                                                  **getattr(m.case, "extra_files", {})),
                        "standalone": bool(m.case.meta.get("standalone") or m.case.meta.get("files")),
                        "expected_exit": m.case.meta.get("exit"), "accept": m.case.accept,
                        "expected_stdout_of_case": m.case.expected, "fault": m.case.fault,
